@@ -137,14 +137,24 @@ fn gm_matches(m: &DGM, g: &Option<T>) -> bool {
     GraphNameMatcher::matches(m, g.as_ref())
 }
 
-/// `n=… quads=…` (+ `FAIL.quads=` when the Rust-side expectation differs)
+/// `n=… quads=… set=…` (+ `FAIL.quads=` when the Rust-side expectation is not met).
+///
+/// The property demands that the view shows EXACTLY THE TRIPLES of the corresponding quads: the same set,
+/// and no triple more often than there are quads behind it (`quads=` is compared as a multiset with the model
+/// only; a view that would show a triple held in two graphs once is not a violation of the property text).
 fn qreply(actual: Vec<String>, expected: Vec<String>) -> String {
     let n = actual.len();
-    let a = render_qs(actual);
-    let e = render_qs(expected);
-    let mut r = format!("n={} quads={}", n, a);
-    if a != e {
-        r += &format!(" FAIL.quads=expected:{}", e);
+    let set = |v: &[String]| {
+        let mut v = v.to_vec();
+        v.sort();
+        v.dedup();
+        v
+    };
+    let (sa, se) = (set(&actual), set(&expected));
+    let over = sa.iter().any(|k| actual.iter().filter(|x| *x == k).count() > expected.iter().filter(|x| *x == k).count());
+    let mut r = format!("n={} quads={} set={}", n, render_qs(actual), render_qs(sa.clone()));
+    if sa != se || over {
+        r += &format!(" FAIL.quads=expected:{}", render_qs(expected));
     }
     r
 }
@@ -157,8 +167,8 @@ fn qreply(actual: Vec<String>, expected: Vec<String>) -> String {
 ///   says what changed (`FAIL.r`);
 /// * vectors (multiplicities and flags "not significant"): every quad outside `touched` keeps its copies
 ///   (`oth=` / `FAIL.oth`), and for a single-quad mutation the copies of that quad grow / shrink (`FAIL.copies`);
-/// * every store: the same operation applied DIRECTLY to a clone of the store gives the same result and the
-///   same content (`FAIL.twin`).
+/// * every store: the same operation applied DIRECTLY to a second store of the same type holding the same
+///   quads gives the same result and the same content (`FAIL.twin`).
 struct MutOut {
     s: String,
     res: String,
@@ -206,6 +216,26 @@ impl MutOut {
             self.s += &format!(" FAIL.twin=direct:r={},st={}", twin_res, render_qs(twin_post));
         }
     }
+}
+
+/// A second store of the same type holding the same quads, built from scratch by direct insertions (not by
+/// `Clone`, which is another property's business): the DIRECT operation is applied to it and must give the
+/// same result and content as the operation through the view.
+fn twin_dataset<D: MutableDataset + Default>(pre: &[Q]) -> D {
+    let mut t = D::default();
+    for q in pre {
+        let ([s, p, o], g) = tgen::q_to_simple(q);
+        let _ = MutableDataset::insert(&mut t, &s, &p, &o, g.as_ref());
+    }
+    t
+}
+fn twin_graph<G: MutableGraph + Default>(pre: &[Q]) -> G {
+    let mut t = G::default();
+    for q in pre {
+        let ([s, p, o], _) = tgen::q_to_simple(q);
+        let _ = MutableGraph::insert(&mut t, &s, &p, &o);
+    }
+    t
 }
 
 fn count_res<E>(r: &Result<usize, E>) -> String {
@@ -285,7 +315,7 @@ fn flag(r: Result<bool, ()>) -> String {
 
 fn ds_exec<D, GT>(d: &mut D, wrap: fn(ST) -> GT, vec: bool, toks: &[&str]) -> String
 where
-    D: MutableDataset + Clone + 'static,
+    D: MutableDataset + Default + 'static,
     D::MutationError: From<D::Error>,
     for<'x> DTerm<'x, D>: Clone,
     GT: for<'x> Term<BorrowTerm<'x> = DTerm<'x, D>> + 'static,
@@ -426,7 +456,7 @@ where
                     let ([s, p, o], _) = tgen::q_to_simple(&t);
                     let k = qkey(&with_g(&t));
                     let present = prek.contains(&k);
-                    let mut twin = d.clone();
+                    let mut twin: D = twin_dataset(&pre);
                     let r: Result<bool, ()> = {
                         let mut view = D::graph_mut(d, gname(&g));
                         if ins {
@@ -474,7 +504,7 @@ where
                     let ins = *op == "insall";
                     let sts: Vec<[ST; 3]> = ts.iter().map(|q| tgen::q_to_simple(q).0).collect();
                     let sqs: Vec<SQ> = sts.iter().map(|t| (t.clone(), gs.clone())).collect();
-                    let mut twin = d.clone();
+                    let mut twin: D = twin_dataset(&pre);
                     let r: Result<usize, ()> = {
                         let mut view = D::graph_mut(d, gname(&g));
                         if ins {
@@ -525,7 +555,7 @@ where
                     }
                     let hit = |q: &Q| tm_matches(&sm, &q.s) && tm_matches(&pm, &q.p) && tm_matches(&om, &q.o);
                     let remm = *op == "remm";
-                    let mut twin = d.clone();
+                    let mut twin: D = twin_dataset(&pre);
                     let res: String = {
                         let mut view = D::graph_mut(d, gname(&g));
                         if remm {
@@ -564,7 +594,7 @@ where
     }
 }
 
-fn gr_exec<G: MutableGraph + Clone>(g: &mut G, vec: bool, toks: &[&str]) -> String
+fn gr_exec<G: MutableGraph + Default>(g: &mut G, vec: bool, toks: &[&str]) -> String
 where
     G::MutationError: From<G::Error>,
     for<'x> GTerm<'x, G>: Clone,
@@ -722,7 +752,7 @@ where
                     let ([s, p, o], gn) = tgen::q_to_simple(&q);
                     let k = tkey(&q);
                     let present = prek.contains(&k);
-                    let mut twin = g.clone();
+                    let mut twin: G = twin_graph(&pre);
                     let r = {
                         let mut ds = G::as_dataset_mut(g);
                         if ins {
@@ -1025,7 +1055,7 @@ fn gen_gm(names: &[Option<T>], g: &TermGen, r: &mut Rng, depth: usize, stats: &m
         }
         8 => {
             name = "gkind";
-            format!("GK {}", r.pick(&["none", "iri", "bnode", "literal"]))
+            format!("GK {}", r.pick(&["none", "iri", "bnode", "literal", "triple", "variable"]))
         }
         9 => {
             name = "gclosure";
@@ -1067,6 +1097,21 @@ fn gen_tpat(g: &TermGen, r: &mut Rng, stats: &mut Stats, pool: &[Q]) -> String {
     parts.join(" ")
 }
 
+/// a triple pattern for a bulk operation through a view, mostly matching the triple `q`
+fn gen_vpat(g: &TermGen, r: &mut Rng, stats: &mut Stats, q: &Q) -> String {
+    let mut parts = vec![];
+    for term in [&q.s, &q.p, &q.o] {
+        parts.push(match r.below(20) {
+            0..=3 => format!("O {}", term.render()),
+            4..=7 => format!("S 1 {}", term.render()),
+            8..=11 => format!("R 1 {}", term.render()),
+            12..=16 => "A".to_string(),
+            _ => gen_tm(g, r, 1, stats),
+        });
+    }
+    parts.join(" ")
+}
+
 fn triple_text(q: &Q) -> String {
     format!("{} {} {}", q.s.render(), q.p.render(), q.o.render())
 }
@@ -1075,15 +1120,35 @@ fn triple_text(q: &Q) -> String {
 const VIEW_ENUMS: [&str; 7] = ["subjects", "predicates", "objects", "iris", "bnodes", "literals", "vars"];
 const ENUMS: [&str; 9] = ["subjects", "predicates", "objects", "graphs", "iris", "bnodes", "literals", "vars", "qtriples"];
 
+/// 1..4 triples for a bulk operation through a view: mostly triples in use, sometimes twice the same
+fn gen_bulk(g: &TermGen, r: &mut Rng, generalized: bool, pool: &[Q], stats: &mut Stats) -> Vec<Q> {
+    let n = r.range(1, 4);
+    let mut v: Vec<Q> = vec![];
+    for _ in 0..n {
+        let t = if !v.is_empty() && r.chance(1, 6) {
+            stats.bump("bulk.repeated_element");
+            v[0].clone()
+        } else if !pool.is_empty() && r.chance(2, 3) {
+            r.pick(pool).clone()
+        } else if generalized {
+            g.any_quad(r)
+        } else {
+            g.strict_quad(r)
+        };
+        v.push(Q { g: None, ..t });
+    }
+    v
+}
+
 pub fn generate(ctx: &mut GenCtx) {
     let mut g = TermGen::default();
     g.iris.truncate(4);
     g.lexicals.truncate(4);
     let kinds: &[(&str, &str)] = &[
         ("LD", "32"), ("LG", "32"), ("FD", "32"), ("FG", "32"), ("HD", "0"), ("HG", "0"), ("LD", "16"), ("LG", "16"),
-        ("BD", "0"), ("BG", "0"), ("FD", "16"), ("FG", "16"), ("VD", "0"), ("VG", "0"),
+        ("BD", "0"), ("BG", "0"), ("FD", "16"), ("FG", "16"), ("VD", "0"), ("VG", "0"), ("HP", "0"), ("BP", "0"), ("VP", "0"),
     ];
-    let histories = if ctx.thorough { 700 } else { 112 };
+    let histories = kinds.len() * if ctx.thorough { 150 } else { 24 };
     let maxlen = if ctx.thorough { 90 } else { 40 };
     for h in 0..histories {
         let (kind, width) = kinds[h % kinds.len()];
@@ -1091,16 +1156,25 @@ pub fn generate(ctx: &mut GenCtx) {
         ctx.emit(&format!("new {} {}", kind, width));
         ctx.stats.bump(&format!("store.{}{}", kind, width));
         let generalized = (h / kinds.len()) % 3 == 1;
-        // graph names in use: default, two IRIs, one blank node (+ a literal in generalized histories);
-        // `absent` is never inserted directly
+        // graph names in use: default, two IRIs, one blank node (+ a literal, a quoted triple and a variable in
+        // generalized histories); the `absent` ones (an IRI, a blank node, a literal) are never inserted directly
         let mut names: Vec<Option<T>> = vec![None, Some(g.iri(&mut ctx.rng)), Some(g.iri(&mut ctx.rng)), Some(g.bnode(&mut ctx.rng))];
         if generalized {
             names.push(Some(g.literal(&mut ctx.rng)));
+            names.push(Some(g.strict_triple(&mut ctx.rng, 1)));
+            names.push(Some(g.var(&mut ctx.rng)));
         }
-        let absent = Some(T::Iri("x:absent".into()));
+        let absents = [
+            Some(T::Iri("x:absent".into())),
+            Some(T::Bnode("absent".into())),
+            Some(T::Lit("absent".into(), "http://www.w3.org/2001/XMLSchema#string".into())),
+        ];
         let mut with_absent = names.clone();
-        with_absent.push(absent.clone());
+        with_absent.extend(absents.iter().cloned());
         let mut pool: Vec<Q> = vec![];
+        // quads inserted so far, with their graph (removals are not tracked): lets the operations through a
+        // graph view aim at a graph / triple that is probably there
+        let mut gpool: Vec<Q> = vec![];
         let n = ctx.rng.range(10, maxlen);
         for _ in 0..n {
             // a triple: new, or (often) one already in use — so that graphs share triples
@@ -1117,7 +1191,7 @@ pub fn generate(ctx: &mut GenCtx) {
             let gn = ctx.rng.pick(&names).clone();
             let q = Q { s: t.s.clone(), p: t.p.clone(), o: t.o.clone(), g: if graph { None } else { gn } };
             let line = if graph {
-                match ctx.rng.below(20) {
+                match ctx.rng.below(28) {
                     0..=3 => {
                         pool.push(q.clone());
                         format!("d ins {}", q.render())
@@ -1156,35 +1230,92 @@ pub fn generate(ctx: &mut GenCtx) {
                     }
                     17 => format!("v asds enum {}", ctx.rng.pick(&ENUMS)),
                     18 => format!("d qm {}", gen_tpat(&g, &mut ctx.rng, &mut ctx.stats, &pool)),
-                    _ => "all".to_string(),
+                    19 => "all".to_string(),
+                    20..=22 => {
+                        // the default bulk methods of MutableDataset on as_dataset_mut()
+                        let mut ts = gen_bulk(&g, &mut ctx.rng, generalized, &pool, &mut ctx.stats);
+                        let ins = ctx.rng.chance(1, 2);
+                        if ctx.rng.chance(1, 4) {
+                            let i = ctx.rng.below(ts.len());
+                            ts[i].g = ctx.rng.pick(&with_absent[1..]).clone();
+                            ctx.stats.bump(if ins { "asds.insall.named" } else { "asds.remall.named" });
+                        }
+                        if ins {
+                            pool.extend(ts.iter().filter(|t| t.g.is_none()).cloned());
+                        }
+                        let body: Vec<String> = ts.iter().map(|t| t.render()).collect();
+                        format!("v asds {} {}", if ins { "insall" } else { "remall" }, body.join(" | "))
+                    }
+                    23..=26 => {
+                        // reads through the mutable / owning adapters
+                        let vw = if ctx.rng.chance(2, 3) { "asdsm" } else { "ids" };
+                        match ctx.rng.below(5) {
+                            0 => format!("v {} all", vw),
+                            1 | 2 => {
+                                let gm = gen_gm(&with_absent, &g, &mut ctx.rng, 1, &mut ctx.stats);
+                                format!("v {} qm {} {}", vw, gen_tpat(&g, &mut ctx.rng, &mut ctx.stats, &pool), gm)
+                            }
+                            3 => {
+                                let mut q2 = q.clone();
+                                if ctx.rng.chance(1, 3) {
+                                    q2.g = ctx.rng.pick(&with_absent[1..]).clone();
+                                }
+                                format!("v {} has {}", vw, q2.render())
+                            }
+                            _ => format!("v {} enum {}", vw, ctx.rng.pick(&ENUMS)),
+                        }
+                    }
+                    _ => {
+                        let ts = gen_bulk(&g, &mut ctx.rng, generalized, &pool, &mut ctx.stats);
+                        pool.extend(ts.iter().cloned());
+                        let body: Vec<String> = ts.iter().map(|t| t.render()).collect();
+                        format!("d insall {}", body.join(" | "))
+                    }
                 }
             } else {
-                let vg = ctx.rng.pick(&with_absent).clone();
-                match ctx.rng.below(30) {
+                let mut vg = if ctx.rng.chance(1, 6) { ctx.rng.pick(&absents[..]).clone() } else { ctx.rng.pick(&names).clone() };
+                let k = ctx.rng.below(42);
+                // removals / queries through a graph view: 2 in 3 aimed at a quad inserted earlier
+                let mut q = q;
+                let mut ppool: Vec<Q> = pool.clone();
+                if matches!(k, 10..=17 | 30..=33 | 37..=39) && !gpool.is_empty() && ctx.rng.chance(2, 3) {
+                    let f = ctx.rng.pick(&gpool).clone();
+                    vg = f.g.clone();
+                    ppool = vec![f.clone()];
+                    q = f;
+                    ctx.stats.bump("graph_view.aimed");
+                }
+                let aimed = ppool.len() == 1 && !pool.is_empty() && ppool[0] == q;
+                let pool_for_pat = ppool;
+                let is_absent = absents.contains(&vg);
+                let gt = gname_text(&vg);
+                match k {
                     0..=4 => {
                         pool.push(q.clone());
+                        gpool.push(q.clone());
                         format!("d ins {}", q.render())
                     }
                     5 => format!("d rem {}", q.render()),
                     6..=9 => {
                         pool.push(q.clone());
-                        ctx.stats.bump(if vg == absent { "graph_mut.ins.absent" } else { "graph_mut.ins" });
-                        format!("v graph {} ins {}", gname_text(&vg), triple_text(&q))
+                        gpool.push(Q { g: vg.clone(), ..q.clone() });
+                        ctx.stats.bump(if is_absent { "graph_mut.ins.absent" } else { "graph_mut.ins" });
+                        format!("v graph {} ins {}", gt, triple_text(&q))
                     }
                     10..=12 => {
-                        ctx.stats.bump(if vg == absent { "graph_mut.rem.absent" } else { "graph_mut.rem" });
-                        format!("v graph {} rem {}", gname_text(&vg), triple_text(&q))
+                        ctx.stats.bump(if is_absent { "graph_mut.rem.absent" } else { "graph_mut.rem" });
+                        format!("v graph {} rem {}", gt, triple_text(&q))
                     }
-                    13 => format!("v graph {} all", gname_text(&vg)),
-                    14..=15 => format!("v graph {} qm {}", gname_text(&vg), gen_tpat(&g, &mut ctx.rng, &mut ctx.stats, &pool)),
-                    16 => format!("v graph {} has {}", gname_text(&vg), triple_text(&q)),
-                    17 => format!("v graph {} enum {}", gname_text(&vg), ctx.rng.pick(&VIEW_ENUMS)),
-                    18 => "v union all".to_string(),
-                    19..=20 => format!("v union qm {}", gen_tpat(&g, &mut ctx.rng, &mut ctx.stats, &pool)),
+                    13 => format!("v graph {} all", gt),
+                    14..=15 => format!("v graph {} qm {}", gt, gen_tpat(&g, &mut ctx.rng, &mut ctx.stats, &pool_for_pat)),
+                    16 => format!("v graph {} has {}", gt, triple_text(&q)),
+                    17 => format!("v graph {} enum {}", gt, ctx.rng.pick(&VIEW_ENUMS)),
+                    18 => format!("v {} all", if ctx.rng.chance(1, 2) { "union" } else { "iunion" }),
+                    19..=20 => format!("v {} qm {}", if ctx.rng.chance(2, 3) { "union" } else { "iunion" }, gen_tpat(&g, &mut ctx.rng, &mut ctx.stats, &pool)),
                     21 => format!("v union has {}", triple_text(&q)),
                     22 => {
                         let w = *ctx.rng.pick(&ENUMS);
-                        format!("v union enum {}", if w == "graphs" { "iris" } else { w })
+                        format!("v {} enum {}", if ctx.rng.chance(2, 3) { "union" } else { "iunion" }, if w == "graphs" { "iris" } else { w })
                     }
                     23 => format!("v punion {} all", gen_gm(&with_absent, &g, &mut ctx.rng, 1, &mut ctx.stats)),
                     24..=25 => {
@@ -1197,14 +1328,86 @@ pub fn generate(ctx: &mut GenCtx) {
                         let gm = gen_gm(&names, &g, &mut ctx.rng, 1, &mut ctx.stats);
                         format!("d remm {} {}", gen_tpat(&g, &mut ctx.rng, &mut ctx.stats, &pool), gm)
                     }
-                    _ => "all".to_string(),
+                    29 => "all".to_string(),
+                    30..=31 => {
+                        ctx.stats.bump(if is_absent { "graph_mut.remm.absent" } else { "graph_mut.remm" });
+                        if ctx.rng.chance(1, 8) {
+                            format!("v graph {} remm A A A", gt)
+                        } else if aimed && ctx.rng.chance(3, 4) {
+                            format!("v graph {} remm {}", gt, gen_vpat(&g, &mut ctx.rng, &mut ctx.stats, &q))
+                        } else {
+                            format!("v graph {} remm {}", gt, gen_tpat(&g, &mut ctx.rng, &mut ctx.stats, &pool_for_pat))
+                        }
+                    }
+                    32..=33 => {
+                        ctx.stats.bump(if is_absent { "graph_mut.retm.absent" } else { "graph_mut.retm" });
+                        if aimed && ctx.rng.chance(3, 4) {
+                            format!("v graph {} retm {}", gt, gen_vpat(&g, &mut ctx.rng, &mut ctx.stats, &q))
+                        } else {
+                            format!("v graph {} retm {}", gt, gen_tpat(&g, &mut ctx.rng, &mut ctx.stats, &pool_for_pat))
+                        }
+                    }
+                    34..=36 => {
+                        let mut ts = gen_bulk(&g, &mut ctx.rng, generalized, &pool, &mut ctx.stats);
+                        let ins = ctx.rng.chance(1, 2);
+                        if ins {
+                            pool.extend(ts.iter().cloned());
+                            gpool.extend(ts.iter().map(|t| Q { g: vg.clone(), ..t.clone() }));
+                        } else if !gpool.is_empty() && ctx.rng.chance(2, 3) {
+                            // aim the removal at a graph that probably holds one of the triples
+                            let f = ctx.rng.pick(&gpool).clone();
+                            vg = f.g.clone();
+                            ts.push(Q { g: None, ..f });
+                            ctx.stats.bump("graph_view.aimed");
+                        }
+                        let is_absent = absents.contains(&vg);
+                        let gt = gname_text(&vg);
+                        ctx.stats.bump(if is_absent { "graph_mut.bulk.absent" } else { "graph_mut.bulk" });
+                        let body: Vec<String> = ts.iter().map(|t| t.render()).collect();
+                        format!("v graph {} {} {}", gt, if ins { "insall" } else { "remall" }, body.join(" | "))
+                    }
+                    37..=39 => {
+                        // reads through graph_mut(g)
+                        match ctx.rng.below(5) {
+                            0 => format!("v graphm {} all", gt),
+                            1 | 2 => format!("v graphm {} qm {}", gt, gen_tpat(&g, &mut ctx.rng, &mut ctx.stats, &pool_for_pat)),
+                            3 => format!("v graphm {} has {}", gt, triple_text(&q)),
+                            _ => format!("v graphm {} enum {}", gt, ctx.rng.pick(&VIEW_ENUMS)),
+                        }
+                    }
+                    _ => {
+                        // a direct bulk insertion spreading triples over the graphs in use
+                        let ts = gen_bulk(&g, &mut ctx.rng, generalized, &pool, &mut ctx.stats);
+                        pool.extend(ts.iter().cloned());
+                        let qs: Vec<Q> = ts.iter().map(|t| Q { g: ctx.rng.pick(&names).clone(), ..t.clone() }).collect();
+                        gpool.extend(qs.iter().cloned());
+                        let body: Vec<String> = qs.iter().map(|t| t.render()).collect();
+                        format!("d insall {}", body.join(" | "))
+                    }
                 }
             };
             let mut w = line.split(' ');
             let a = w.next().unwrap().to_string();
             let opname = if a == "v" {
                 let view = w.next().unwrap();
-                let op = line.split(' ').find(|t| ["all", "qm", "has", "enum", "ins", "rem"].contains(t)).unwrap_or("?");
+                let op = line
+                    .split(' ')
+                    .find(|t| ["all", "qm", "has", "enum", "ins", "rem", "insall", "remall", "remm", "retm"].contains(t))
+                    .unwrap_or("?");
+                if let Some(gtok) = line.split(' ').nth(2) {
+                    if view.starts_with("graph") {
+                        let kind = match gtok {
+                            "-" => "default",
+                            "i" => "iri",
+                            "b" => "bnode",
+                            "l" | "g" => "literal",
+                            "t" => "triple",
+                            "v" => "variable",
+                            _ => "other",
+                        };
+                        ctx.stats.bump(&format!("graph_view.name.{}", kind));
+                    }
+                }
                 format!("v.{}.{}", view, op)
             } else if a == "d" {
                 format!("d.{}", w.next().unwrap())
@@ -1219,7 +1422,14 @@ pub fn generate(ctx: &mut GenCtx) {
         if graph {
             ctx.emit("v asds all");
             ctx.emit("v asds enum graphs");
+            ctx.emit("v asdsm all");
+            let w = *ctx.rng.pick(&["subjects", "predicates", "objects", "iris", "literals"]);
+            ctx.emit(&format!("v asdsm enum {}", w));
+            ctx.emit(&format!("v ids enum {}", w));
         } else {
+            let gi = ctx.rng.below(names.len());
+            ctx.emit(&format!("v graphm {} all", gname_text(&names[gi])));
+            ctx.emit("v iunion all");
             ctx.emit("v union all");
             for nm in &with_absent {
                 ctx.emit(&format!("v graph {} all", gname_text(nm)));
